@@ -215,6 +215,14 @@ fn order_only(a: &str, b: &str) -> bool {
     a != b && toks(a) == toks(b)
 }
 
+/// true if the two outputs are equal once the key lists of ORDER BY clauses are blanked
+fn order_by_only(a: &str, b: &str) -> bool {
+    let re = regex::Regex::new(r#"ORDER BY [A-Za-z0-9_.,"` ]+"#).unwrap();
+    a != b && re.replace_all(a, "ORDER BY ?") == re.replace_all(b, "ORDER BY ?")
+}
+
+pub const F_ORDERBY: &str = "C11-order-by-alias-choice-hash-dependent";
+
 pub fn check(case: &Case, known: &Known) -> Outcome {
     // canonical outputs: two fresh processes per distinct call
     let mut distinct: Vec<Call> = case.calls.clone();
@@ -226,7 +234,9 @@ pub fn check(case: &Case, known: &Known) -> Outcome {
     out.key = hash_of(&serde_json::to_string(case).unwrap_or_default());
     let attribute = |what: &str, a: &str, b: &str, detail: Value| -> Outcome {
         let mut o = Outcome::fail(what, detail);
-        if order_only(a, b) {
+        if order_by_only(a, b) && known.is_open(F_ORDERBY) {
+            o.verdict = Verdict::Known(F_ORDERBY.into(), format!("{what}: differs only inside ORDER BY key lists"));
+        } else if order_only(a, b) {
             let is_err = a.starts_with("ERR") || b.starts_with("ERR");
             let id = if is_err { F_ERRTEXT } else { F_ORDER };
             if known.is_open(id) {
